@@ -144,7 +144,7 @@ namespace chaiscript {
 
       template<typename Ret>
       struct Handle_Return<const Ret> {
-        static Boxed_Value handle(Ret r) { return Boxed_Value(std::move(r)); }
+        static Boxed_Value handle(Ret r) { return Boxed_Value(std::make_shared<const Ret>(std::move(r)), true); }
       };
 
       template<typename Ret>
